@@ -101,6 +101,7 @@ func c15NamedType(r *R) {
 func c15(r *R) {
 	c12ReverseStr(r) // "ReverseStr reverses runes" is part of this property's statement too
 	c15NamedType(r)
+	c15PadLarge(r)
 	maxRunes := 4
 	alpha := []string{"a", "B", "é", "-", "*"}
 	if thorough {
@@ -443,3 +444,75 @@ func c15Styles(r *R) {
 var extremeInts = []int{math.MinInt, math.MinInt + 1, math.MinInt32, math.MaxInt32, math.MaxInt - 1, math.MaxInt}
 
 func isExtreme(v int) bool { return v <= math.MinInt32 || v >= math.MaxInt32 }
+
+
+// c15PadLarge: the padding contracts at sizes where an implementation that builds the padding in blocks
+// (doubling, a bounded copy buffer) changes regime: around powers of two from 1 KiB to 64 KiB and a few
+// sizes in between, with tokens whose length divides none of them.
+func c15PadLarge(r *R) {
+	sizes := []int{1000, 1023, 1024, 1025, 4095, 4096, 4097, 8191, 8192, 8193, 8200, 16383, 16384, 16387, 20480, 24579, 32771, 65537}
+	if thorough {
+		for n := 100000; n <= 300000; n += 33333 {
+			sizes = append(sizes, n)
+		}
+	}
+	for _, s := range []string{"", "abc", "a|_-"} {
+		n := len(s)
+		for _, size := range sizes {
+			for _, tok := range []string{"_", "ab", "_-|", "12345", "abcdef", "1234567", "é"} {
+				for _, fn := range []string{"PadLeft", "PadRight", "Pad"} {
+					var got string
+					p, msg := enum.Try(func() {
+						switch fn {
+						case "PadLeft":
+							got = gogu.PadLeft(s, size, tok)
+						case "PadRight":
+							got = gogu.PadRight(s, size, tok)
+						default:
+							got = gogu.Pad(s, size, tok)
+						}
+					})
+					r.Eval(fn + "/large")
+					wit := fmt.Sprintf("%s(%q,%d,%q)", fn, s, size, tok)
+					if p {
+						r.Bad(fn+"/panic", wit, "panicked: %s", msg)
+						continue
+					}
+					if len(got) != size {
+						r.Bad(fn+"/wrong-length", wit, "got a string of length %d, want %d", len(got), size)
+						continue
+					}
+					var l, rt string
+					ok := true
+					switch fn {
+					case "PadLeft":
+						ok = strings.HasSuffix(got, s)
+						l = got[:size-n]
+					case "PadRight":
+						ok = strings.HasPrefix(got, s)
+						rt = got[n:]
+					default:
+						lw := (size - n) / 2
+						ok = got[lw:lw+n] == s
+						l, rt = got[:lw], got[lw+n:]
+					}
+					if !ok || !isPrefixOfRepeat(l, tok) || !isPrefixOfRepeat(rt, tok) {
+						at := 0
+						rep := strings.Repeat(tok, size/len(tok)+2)
+						for _, part := range []string{l, rt} {
+							for i := 0; i < len(part); i++ {
+								if part[i] != rep[i] {
+									at = i
+									break
+								}
+							}
+						}
+						r.Bad(fn+"/input-misplaced-or-padding-not-from-token/large", wit, "the padding stops repeating the token around byte %d", at)
+					}
+				}
+			}
+		}
+	}
+	r.Nontrivial("pad-large-a")
+	r.Nontrivial("pad-large-b")
+}
